@@ -101,6 +101,10 @@ def op_fault_run(t):
         before = sha(path)
         cue_names = sorted({c for cs, _ in events for c in cs})
         out_names = sorted({o for _, os_ in events for o in os_})
+        if t.get('table_names'):
+            # the names the vector tables are built for, when they are not to be taken from the events
+            # (an event file with zero events still needs tables)
+            cue_names, out_names = list(t['table_names']['cue']), list(t['table_names']['outcome'])
         if kind == 'no_vector':
             if fault['side'] == 'cue':
                 cue_names = [c for c in cue_names if c != fault['name']]
@@ -164,6 +168,17 @@ def op_fault_run(t):
             kw['method'] = method
         elif learner in ('ndl_threading', 'ndl_openmp'):
             kw['method'] = learner[4:]
+        watcher, listing_before = None, None
+        if t.get('watch'):
+            # C17: listing (paths + sha256) of the call's whole private root before / after, and the entries the
+            # call (its worker processes included) is observed to create / remove meanwhile
+            import fswatch
+            listing_before = fswatch.listing(cd.root)
+            try:
+                watcher = fswatch.Watcher(cd.root)
+                watcher.start()
+            except OSError:
+                watcher = False          # no inotify instance to be had: the listings are still compared
         t0 = time.time()
         res = {}
         captured = io.StringIO()
@@ -199,6 +214,12 @@ def op_fault_run(t):
         finally:
             preprocess._job_binary_event_file = _REAL_JOB
         res['seconds'] = round(time.time() - t0, 2)
+        if watcher is not None:
+            import fswatch
+            res['observed'] = watcher.stop() if watcher else []
+            res['watched'] = bool(watcher)
+            res['listing_before'] = listing_before
+            res['listing_after'] = fswatch.listing(cd.root)
         if t.get('verbose'):
             res['printed_chars'] = len(captured.getvalue())
         res['leftovers'] = cd.leftovers()
